@@ -133,7 +133,8 @@ def run(ctx, R, tier):
         return True, ""
     n_dyn = 0
     for c, tgs in ctx.cg.calls_of(f):
-        if isinstance(c.func, ast.Name) and ctx.cg.is_local(f, c.func.id) and any(t.kind == "dyn" for t in tgs):
+        if isinstance(c.func, ast.Name) and ctx.cg.is_local(f, c.func.id) and not any(t.kind == "fn" for t in tgs) and \
+                not any(t.kind == "ext" and not t.name.endswith("()()") for t in tgs):
             n_dyn += 1
             for node in ctx.node_of(f, c):
                 ok, why = from_gate(node, c.func.id)
@@ -205,9 +206,15 @@ def run(ctx, R, tier):
     m = ctx.fn("Pyro5.server._get_exposed_members")
     mcfg = ctx.cfg(m)
     adds = {}
+    role = {}
+    for n in walk_no_nested(m.node):
+        if isinstance(n, ast.Dict):
+            for k, v in zip(n.keys, n.values):
+                if isinstance(k, ast.Constant) and k.value in ("methods", "attrs") and isinstance(v, ast.Name):
+                    role[v.id] = k.value
     for c, _ in ctx.cg.calls_of(m):
-        if isinstance(c.func, ast.Attribute) and c.func.attr == "add" and isinstance(c.func.value, ast.Name) and c.func.value.id in ("methods", "attrs"):
-            adds.setdefault(c.func.value.id, []).append(c)
+        if isinstance(c.func, ast.Attribute) and c.func.attr == "add" and isinstance(c.func.value, ast.Name) and c.func.value.id in role:
+            adds.setdefault(role[c.func.value.id], []).append(c)
     if "methods" not in adds or "attrs" not in adds:
         raise AnalysisError("_get_exposed_members: methods.add / attrs.add vanished")
     callable_kinds = {"inspect.ismethod", "inspect.isfunction", "inspect.ismethoddescriptor"}
